@@ -65,6 +65,9 @@ pub struct IoMenu {
     pub read_eof: bool,
     /// buffering transport: accepted bytes reach the broker only when a flush completes
     pub deliver_on_flush: bool,
+    /// the transport never takes more than this many bytes in one write (0 = no limit): a property of
+    /// the transport, not a deviation
+    pub max_write: usize,
 }
 
 impl IoMenu {
@@ -99,6 +102,7 @@ impl IoMenu {
             read_err: true,
             read_eof: true,
             deliver_on_flush: false,
+            max_write: 0,
         }
     }
     pub fn faults_only() -> Self {
@@ -163,6 +167,8 @@ pub struct BrokerCfg {
     /// The broker ignores the client's Receive Maximum: it sends further QoS 2 publishes while eight
     /// are still unreleased (a protocol error on its side; the client's answer must still be legal).
     pub overrun: bool,
+    /// The broker answers PUBREL last: every other owed packet goes out before any PUBCOMP.
+    pub pubcomp_last: bool,
 }
 
 impl Default for BrokerCfg {
@@ -187,6 +193,7 @@ impl Default for BrokerCfg {
             fifo: false,
             script_burst: false,
             overrun: false,
+            pubcomp_last: false,
         }
     }
 }
